@@ -31,7 +31,6 @@ ASSUMPTIONS = [
     "'final size is a multiple of devblksize' (C03.finish.layout) is not claimed here",
     "the block processor, serialize_fstree, dir writer and id/frag table front ends are covered through the write sites they funnel into (write_block, sqfs_write_table, write_data_block); that they issue no other write_at/truncate is a syntactic fact of the tree (grep, see EXPLANATION), not a proof obligation here; the C13 harnesses of those functions run against the same file contract, so a direct write added there is checked against C14.append_only.* in the C13 run",
     "cleanup.c (unlink on failure) is C13.cleanup.unlinks",
-    "xattr_flush runs under --dfcc: cbmc --cover cannot see its cover points; reachability is shown by the self-test mutants",
 ]
 EXPLANATION = ("three lemmas: (1) the provisional superblock written by sqfs_writer_init is rejected by "
                "sqfs_super_read for all arguments and stays so whatever is appended (init_unreadable, "
@@ -99,10 +98,6 @@ HARNESSES = [
     dict(name="xattr_flush", file="xattr_flush.c", label="proved",
          mode="dfcc", replace=["write_kv_pairs", "write_id_table", "alloc_location_table"],
          loops=["sqfs_xattr_writer_flush"], native=False,
-         # cbmc --cover cannot see __CPROVER_cover calls after --dfcc (they get
-         # a write-set argument); reachability of the branches is demonstrated
-         # by the self-test mutants instead
-         cover=False,
          must_have=["C14.append_only.xattr_flush", "C14.xattr_flush.start_inside",
                     "C14.xattr_flush.empty_is_absent"],
          fp=dict(_FP_FILE, destroy="mw_destroy"),
